@@ -3,7 +3,7 @@
    loop m n_envs total stop lens num = (train events (num_timesteps, gradient steps), final num_timesteps, stopped)
    for the rollouts of lengths `lens` (vectorised steps); stop n = the callback returns False at num_timesteps = n. *)
 From Coq Require Import ZArith List Bool QArith Sorted.
-From SB3V Require Import Gen.Frag_learnloop Model.LearnLoop Proofs.LearnLoopProofs.
+From SB3V Require Import Gen.Frag_learnloop Model.LearnLoop Model.Minibatch Proofs.LearnLoopProofs.
 Import ListNotations.
 Local Open Scope Z_scope.
 
@@ -110,6 +110,51 @@ Theorem C12_linear_schedule_ends : forall p s e f, (0 < f)%Q ->
 Proof. exact linear_fn_ends. Qed.
 Print Assumptions C12_linear_schedule_ends.
 
+(* on-policy: a pass over a rollout of N samples in minibatches of b makes ceil(N/b) optimizer steps (the last one truncated) *)
+Theorem C12_minibatch_count : forall (b : nat) (idx : list nat), (1 <= b)%nat ->
+  length (minibatches b idx) = ((length idx + b - 1) / b)%nat.
+Proof. exact (@minibatch_count nat). Qed.
+Print Assumptions C12_minibatch_count.
+
+(* PPO: rollout size n_envs * n_steps; the constructor's warning is issued exactly when N % batch <> 0; updates per train() =
+   n_epochs * (N // batch + 1 if truncated else N // batch), from the regenerated expressions *)
+Theorem C12_ppo_truncated_minibatch_law : forall n_envs n_steps batch n_epochs, 0 < batch -> 0 <= n_envs * n_steps ->
+  let N := ppo_rollout_size n_envs n_steps in
+  N = n_envs * n_steps /\
+  (ppo_truncated_warning N batch = true <-> N mod batch <> 0) /\
+  on_train_steps n_epochs N batch =
+    n_epochs * (ppo_untruncated_batches N batch + (if ppo_truncated_warning N batch then 1 else 0)).
+Proof. exact ppo_truncated_minibatch_law. Qed.
+Print Assumptions C12_ppo_truncated_minibatch_law.
+
+(* gradient_steps = -1: train() after a rollout of s vectorised steps gets s * n_envs gradient steps *)
+Theorem C12_gradient_steps_minus_one : forall ls gs num' s n_envs, gs < 0 ->
+  train_event (OffPolicy ls gs) num' (Z.of_nat s * n_envs) =
+  if gate num' ls && (0 <? Z.of_nat s * n_envs) then [(num', Z.of_nat s * n_envs)] else [].
+Proof. exact train_event_minus_one. Qed.
+Print Assumptions C12_gradient_steps_minus_one.
+
+(* one loop iteration (any rollout length s, e.g. the steps an episodic train_freq needs with one env): counter + s * n_envs,
+   then the train() that train_event decides at that count *)
+Theorem C12_loop_iteration : forall m n_envs total stop s rest num, (forall n, stop n = false) -> num < total ->
+  let num' := num + Z.of_nat s * n_envs in
+  fst (fst (loop m n_envs total stop (s :: rest) num)) =
+    train_event m num' (Z.of_nat s * n_envs) ++ fst (fst (loop m n_envs total stop rest num')).
+Proof. exact loop_iteration. Qed.
+Print Assumptions C12_loop_iteration.
+
+(* learning_starts is counted in timesteps across sub-environments, not in calls *)
+Theorem C12_learning_starts_in_timesteps : forall ls gs k R, 0 < R -> 0 < k ->
+  (train_event (OffPolicy ls gs) (k * R) R <> [] <-> ls < k * R /\ 0 < grad_steps gs R).
+Proof. exact learning_starts_in_timesteps. Qed.
+Print Assumptions C12_learning_starts_in_timesteps.
+
+(* DQN's exploration schedule (regenerated get_linear_fn.func): within [final, initial] and never increasing as training progresses *)
+Theorem C12_exploration_schedule : forall p p' s e f, (0 < f)%Q -> (0 <= p' <= p)%Q -> (p <= 1)%Q -> (e <= s)%Q ->
+  (e <= linear_fn p s e f <= s)%Q /\ (linear_fn p' s e f <= linear_fn p s e f)%Q.
+Proof. exact (fun p p' s e f Hf Hp Hp1 He => conj (linear_fn_range p s e f Hf (conj (Qle_trans _ _ _ (proj1 Hp) (proj2 Hp)) Hp1) He) (linear_fn_monotone p p' s e f Hf Hp Hp1 He)). Qed.
+Print Assumptions C12_exploration_schedule.
+
 (* ---- non-vacuity: total 20, rollouts of 8 timesteps (the input that gave progress -0.2 before the repair) ---- *)
 Example C12_ex_on_policy :
   loop OnPolicy 1 20 (fun _ => false) (repeat 8%nat 5) 0 = ([(8, 0); (16, 0); (24, 0)], 24, false) /\
@@ -119,3 +164,6 @@ Proof. split; [reflexivity|]. repeat split; reflexivity. Qed.
 Example C12_ex_off_policy :
   loop (OffPolicy 5 (-1)) 2 15 (fun n => n =? 14) (repeat 2%nat 9) 0 = ([(8, 4); (12, 4)], 14, true).
 Proof. reflexivity. Qed.
+
+Example C12_ex_minibatches : length (minibatches 4 (seq 0 10)) = 3%nat /\ on_train_steps 2 10 4 = 6 /\ ppo_truncated_warning 10 4 = true.
+Proof. repeat split; reflexivity. Qed.
